@@ -24,7 +24,7 @@ pub fn exec_case(case: &Value) -> Value {
         "load_text" => props::c15::exec(case),
         "history" => props::c14::exec(case),
         "yaml_load" => props::c20::exec(case),
-        "conv" | "widen" | "roundtrip" | "hexparse" | "textconv" | "pathbytes" | "boolip" => props::c19::exec(case),
+        "conv" | "widen" | "roundtrip" | "num_out" | "hexparse" | "textconv" | "pathbytes" | "boolip" => props::c19::exec(case),
         "tpl_replace" | "tpl_load" | "tpl_api" => props::c17::exec(case),
         _ => serde_json::json!({ "error": format!("unknown op {op}") }),
     }
